@@ -76,6 +76,24 @@ Theorem C04_run_in_loop_sync : forall sh scr s t rest,
 Proof. intros. split; [reflexivity|]. split; [reflexivity|]. apply run_in_loop_sync_step. Qed.
 Print Assumptions C04_run_in_loop_sync.
 
+(* ------------------------------------------------------------ queued from an I/O or a timer callback *)
+(* Callbacks -- of I/O channels and of timers alike: a timer callback is the script of the event that
+   TimerQueue::addTimerInLoop offers by arming the timerfd; runAfter() itself is runInLoop(addTimerInLoop),
+   i.e. ARun of a task whose script is [AOffer k] -- run while the loop thread is between the return of
+   poll and the swap.  (a) queueInLoop there appends the task; (b) from there up to the swap every step of
+   any thread keeps every queued task queued or moves it into the batch of THIS iteration's drain, and the
+   loop thread never passes through poll: the task does not wait for another event.  (The no-lost-wake-up
+   theorem C04_no_stall covers the same submissions through its disjunct `will_drain`.) *)
+Theorem C04_callback_submission : forall sh scr,
+  (forall s t rest wk, pc s = LHandle wk -> lcode s = MQueue t :: rest ->
+     exists s', step sh scr s TLoop = Some s' /\ pc s' = LHandle wk /\
+                pending (sg s') = pending (sg s) ++ [t] /\ lcode s' = MWakeTest :: rest) /\
+  (forall s lab s', in_handling (pc s) = true -> step sh scr s lab = Some s' ->
+     (in_handling (pc s') = true \/ exists b, pc s' = LRun b) /\
+     (forall t, In t (pending (sg s)) -> In t (pending (sg s')) \/ In t (batch (pc s')))).
+Proof. intros sh scr. split; [apply callback_queue_step|apply handling_step]. Qed.
+Print Assumptions C04_callback_submission.
+
 (* ------------------------------------------------------------ without delay: no lost wake-up *)
 (* FULL statement (property text: foreign thread, I/O callback, timer callback, nested in a
    functor, or before loop() was entered).  Holds for every shape whose wake-up test also fires
@@ -152,6 +170,16 @@ Definition ex_labels : list label :=
 Example C04_example_reach :
   exists s, run repaired_shape ex_scr (init [] [] [[AQueue 1; ARun 2]; [AQueue 3; AOffer 9]]) ex_labels = Some s /\
             execq (log (sg s)) = [1; 3; 5; 2; 4] /\ quiescent s = true /\ pending (sg s) = [].
+Proof. eexists. split; [vm_compute; reflexivity|]. vm_compute. auto. Qed.
+(* runAfter(0, cb 9) from a foreign thread (task 100 = addTimerInLoop, script [AOffer 9]); the timer
+   callback 9 queues task 5, which the same iteration drains: poll, read, run 100, poll (timer), callback,
+   swap, run 5 *)
+Definition ex_timer_scr : scripts := fun t => match t with 100 => [AOffer 9] | 9 => [AQueue 5] | _ => [] end.
+Example C04_example_timer_callback :
+  exists s, run fixed_shape ex_timer_scr (init [] [] [[ARun 100]])
+              [TLoop; TLoop; TF 0; TF 0; TLoop; TRead; TLoop; TLoop; TLoop; TLoop; TLoop; TLoop; TLoop; TLoop;
+               TLoop; TLoop; TLoop; TLoop; TLoop; TLoop] = Some s /\
+            execq (log (sg s)) = [100; 5] /\ pending (sg s) = [] /\ quiescent s = true.
 Proof. eexists. split; [vm_compute; reflexivity|]. vm_compute. auto. Qed.
 Example C04_shapes_inhabited :
   wake_ok repaired_shape = true /\ wake_ok fixed_shape = true /\
